@@ -5,9 +5,11 @@
    Objects of the library are represented by their PARSE TREES in a specification
    (Iso/Model.v: Leaf c for a class whose rule has no children, Node c parts for the tuple
    returned by the rule's forward map); `wf_tree s c t` says that t is the parse tree of an
-   object of class c (Iso/Valid.v) and `tsize` is the size of that object.  By the bijection
-   contract of the strategies' forward/backward maps (C07) objects of a class and its
-   well-formed parse trees correspond one to one.
+   object of class c (Iso/Valid.v) and `tsize` is the size of that object.  That objects of a
+   class and its well-formed parse trees correspond one to one is a THEOREM under the bijection
+   contracts of the strategies' forward/backward maps (C07_objects_are_parse_trees); section
+   OBJECTS below carries (2) and (2)+(3) to objects.  wf_tree has node formers for atoms,
+   equivalence steps, unions (tag 0) and products (tag 1) only: see C12_scope / C12_construct.
 
    The models: `are_isomorphic` = Isomorphism(spec1, spec2) (with _ancestors, _order_map,
    _failed, the backtracking stack, and the clean-up of commit 7890ace), `bij_map` /
@@ -37,6 +39,12 @@
      prod_wf  a product rule has no empty factor;
      wf_spec  = eq_wf, prod_wf and the root is not declared empty. *)
 From Coq Require Import ZArith List Bool Lia.
+(* objects instead of parse trees (shared with C07 and C08): separable delta = the next three lines, the sections
+   "OBJECTS" / "construct" below, their examples and Print Assumptions.  Imported FIRST: the names of the C12
+   development (tree, Leaf, rule, spec, ..) take precedence; the Count ones are written qualified. *)
+From CSS Require Import Count.ObjectsModel Count.ObjectsProofs Count.ObjectsSpec Count.ObjectsExample
+     Count.SampleModel Count.ParseTrees Count.ParseTreesProofs Count.ParseTreesExample.
+From CSS Require Import Iso.ParseTreesIso Iso.Construct.
 From CSS Require Import Base.PyList Gen.PermInv Iso.Model Iso.Cert Iso.Valid Iso.PermProofs
      Iso.Transport Iso.Search Iso.CertProofs Iso.Refl Iso.ReflTotal Iso.Complete Iso.EquivSym Iso.Symmetric
      Iso.SearchSyn Iso.SymmetricFull Iso.Refuted Iso.Termination Iso.NoRaise Iso.Verdict.
@@ -255,6 +263,139 @@ Proof. exact refl_never_false. Qed.
 Theorem C12_ctor_equiv_refl : forall c, ctor_equiv c c = true.
 Proof. exact ctor_equiv_refl. Qed.
 
+(* ------------------------------------------------------------------ OBJECTS *)
+(* Everything above is about parse trees.  Iso/ParseTreesIso.v + Count/ParseTrees*.v link them to OBJECTS.
+   Per specification, in C07's vocabulary (Count/ObjectsModel.v): cspec : nat -> option (ObjectsModel.rule obj) with
+   the rules' backward maps, atom (the object of an atom class), fwd (the rules' forward maps), class membership
+   In_cls, size, par, the bijection contracts node_ok and the productivity certificate of
+   C07_objects_are_parse_trees.  `idescribes size cspec atom s`: the descriptor s read by isomorphism.py and cspec
+   describe the same rules - label c <-> Z.of_nat c; an atom <-> a childless rule with r_atom whose minimum object
+   has the atom's size; RUnion <-> a Rule with constructor tag 0, or an equivalence rule with one child; RProduct
+   <-> a Rule with constructor tag 1, or an equivalence rule with one child (a one-factor product, fix 25e10f1);
+   the children are the same labels; every other class (EmptyStrategy, classes declared empty, Complement /
+   Quotient = reverse of a non-equivalence rule, user constructors, verification rules with several objects) has
+   NO well-formed tree on the descriptor side.
+     emb       SampleModel.tree -> tree (one-hot tuple at a union node, all parts at a product node)
+     iunparse  the object of a tree: backward maps applied bottom-up to the tuples, None kept for the empty
+               children - what ParseTreeMap.map_rec does with rule2.indexed_backward_map
+     obj_map / obj_inverse_map   Bijection.map / inverse_map on objects = parse in the source specification
+               (forward maps), the tree transport bij_map / bij_inverse_map, iunparse in the target. *)
+
+(* the two notions of well-formed parse tree coincide through emb, in both directions, with the same object
+   and the same size *)
+Theorem C12_parse_trees_coincide : forall (obj : Type) (size : obj -> Z)
+    (cspec : nat -> option (ObjectsModel.rule obj)) (atom : nat -> option obj) (s : spec),
+  idescribes size cspec atom s ->
+  (forall t c, twf cspec atom t c -> wf_tree s (Z.of_nat c) (emb cspec t)) /\
+  (forall u c, wf_tree s (Z.of_nat c) u -> exists t, u = emb cspec t /\ twf cspec atom t c) /\
+  (forall t c, twf cspec atom t c ->
+     iunparse cspec atom (emb cspec t) = unparse cspec atom t /\ tsize s (emb cspec t) = tsz size atom t).
+Proof.
+  intros obj size cspec atom s H. split; [|split].
+  - intros t c. apply emb_wf with (size := size). exact H.
+  - intros u c. apply wf_tree_is_emb with (size := size). exact H.
+  - intros t c Hw. split; [eapply iunparse_emb; eassumption|eapply tsize_emb; eassumption].
+Qed.
+
+(* (2) on objects: for ANY valid certificate (in particular an order map reloaded from JSON that passed
+   check_cert) Bijection.map is a size-preserving bijection from the objects of the first root onto the objects
+   of the second, and inverse_map undoes it in both directions *)
+Theorem C12_transport_inverse_objects : forall (obj1 obj2 : Type)
+    (size1 : obj1 -> Z) (In1 : nat -> obj1 -> Prop) (par1 : nat -> obj1 -> ObjectsModel.params)
+    (cspec1 : nat -> option (ObjectsModel.rule obj1)) (atom1 : nat -> option obj1) (fwd1 : nat -> obj1 -> subobj obj1)
+    (size2 : obj2 -> Z) (In2 : nat -> obj2 -> Prop) (par2 : nat -> obj2 -> ObjectsModel.params)
+    (cspec2 : nat -> option (ObjectsModel.rule obj2)) (atom2 : nat -> option obj2) (fwd2 : nat -> obj2 -> subobj obj2)
+    (s1 s2 : spec) (root1 root2 : nat) (rank1 rank2 : nat -> Z -> nat) (ord : order_map),
+  (forall c, node_ok size1 In1 par1 cspec1 atom1 fwd1 c) ->
+  (forall c r n c' m, cspec1 c = Some r -> 0 <= n -> In (c', m) (reads r n) -> cspec1 c' <> None) ->
+  (forall c r n c' m, cspec1 c = Some r -> 0 <= n -> In (c', m) (reads r n) ->
+     0 <= m /\ (rank1 c' m < rank1 c n)%nat) ->
+  (forall c o, In1 c o -> 0 <= size1 o) ->
+  idescribes size1 cspec1 atom1 s1 -> cspec1 root1 <> None -> s_root s1 = Z.of_nat root1 ->
+  (forall c, node_ok size2 In2 par2 cspec2 atom2 fwd2 c) ->
+  (forall c r n c' m, cspec2 c = Some r -> 0 <= n -> In (c', m) (reads r n) -> cspec2 c' <> None) ->
+  (forall c r n c' m, cspec2 c = Some r -> 0 <= n -> In (c', m) (reads r n) ->
+     0 <= m /\ (rank2 c' m < rank2 c n)%nat) ->
+  (forall c o, In2 c o -> 0 <= size2 o) ->
+  idescribes size2 cspec2 atom2 s2 -> cspec2 root2 <> None -> s_root s2 = Z.of_nat root2 ->
+  wf_spec s1 -> wf_spec s2 -> valid_cert s1 s2 ord ->
+  (forall o, In1 root1 o ->
+     exists o', In2 root2 o' /\ size2 o' = size1 o /\
+       exists f0, forall f, (f0 <= f)%nat ->
+         obj_map cspec1 atom1 fwd1 cspec2 atom2 s1 s2 root1 ord f o = Some o' /\
+         obj_inverse_map cspec1 atom1 cspec2 atom2 fwd2 s1 s2 root2 ord f o' = Some o) /\
+  (forall o', In2 root2 o' ->
+     exists o, In1 root1 o /\ size1 o = size2 o' /\
+       exists f0, forall f, (f0 <= f)%nat ->
+         obj_inverse_map cspec1 atom1 cspec2 atom2 fwd2 s1 s2 root2 ord f o' = Some o /\
+         obj_map cspec1 atom1 fwd1 cspec2 atom2 s1 s2 root1 ord f o = Some o').
+Proof.
+  intros. eapply objects_bijection; eauto. apply transport_bijection; assumption.
+Qed.
+
+(* (2)+(3) on objects: whenever Bijection.construct returns a bijection, its map is a size-preserving bijection
+   from the OBJECTS of the first start class onto those of the second with inverse_map as inverse *)
+Theorem C12_constructed_bijection_objects : forall (obj1 obj2 : Type)
+    (size1 : obj1 -> Z) (In1 : nat -> obj1 -> Prop) (par1 : nat -> obj1 -> ObjectsModel.params)
+    (cspec1 : nat -> option (ObjectsModel.rule obj1)) (atom1 : nat -> option obj1) (fwd1 : nat -> obj1 -> subobj obj1)
+    (size2 : obj2 -> Z) (In2 : nat -> obj2 -> Prop) (par2 : nat -> obj2 -> ObjectsModel.params)
+    (cspec2 : nat -> option (ObjectsModel.rule obj2)) (atom2 : nat -> option obj2) (fwd2 : nat -> obj2 -> subobj obj2)
+    (s1 s2 : spec) (root1 root2 : nat) (rank1 rank2 : nat -> Z -> nat) exact fuel ord,
+  (forall c, node_ok size1 In1 par1 cspec1 atom1 fwd1 c) ->
+  (forall c r n c' m, cspec1 c = Some r -> 0 <= n -> In (c', m) (reads r n) -> cspec1 c' <> None) ->
+  (forall c r n c' m, cspec1 c = Some r -> 0 <= n -> In (c', m) (reads r n) ->
+     0 <= m /\ (rank1 c' m < rank1 c n)%nat) ->
+  (forall c o, In1 c o -> 0 <= size1 o) ->
+  idescribes size1 cspec1 atom1 s1 -> cspec1 root1 <> None -> s_root s1 = Z.of_nat root1 ->
+  (forall c, node_ok size2 In2 par2 cspec2 atom2 fwd2 c) ->
+  (forall c r n c' m, cspec2 c = Some r -> 0 <= n -> In (c', m) (reads r n) -> cspec2 c' <> None) ->
+  (forall c r n c' m, cspec2 c = Some r -> 0 <= n -> In (c', m) (reads r n) ->
+     0 <= m /\ (rank2 c' m < rank2 c n)%nat) ->
+  (forall c o, In2 c o -> 0 <= size2 o) ->
+  idescribes size2 cspec2 atom2 s2 -> cspec2 root2 <> None -> s_root s2 = Z.of_nat root2 ->
+  wf_spec s1 -> wf_spec s2 -> construct exact s1 s2 fuel = Ok (Some ord) ->
+  (forall o, In1 root1 o ->
+     exists o', In2 root2 o' /\ size2 o' = size1 o /\
+       exists f0, forall f, (f0 <= f)%nat ->
+         obj_map cspec1 atom1 fwd1 cspec2 atom2 s1 s2 root1 ord f o = Some o' /\
+         obj_inverse_map cspec1 atom1 cspec2 atom2 fwd2 s1 s2 root2 ord f o' = Some o) /\
+  (forall o', In2 root2 o' ->
+     exists o, In1 root1 o /\ size1 o = size2 o' /\
+       exists f0, forall f, (f0 <= f)%nat ->
+         obj_inverse_map cspec1 atom1 cspec2 atom2 fwd2 s1 s2 root2 ord f o' = Some o /\
+         obj_map cspec1 atom1 fwd1 cspec2 atom2 s1 s2 root1 ord f o = Some o').
+Proof.
+  intros until ord. intros A1 A2 A3 A4 A5 A6 A7 B1 B2 B3 B4 B5 B6 B7 W1 W2 HC.
+  apply construct_spec in HC. destruct HC as (st & Hiso & -> & _ & _).
+  eapply objects_bijection; eauto. apply transport_bijection; auto.
+  eapply iso_sound; [apply W1|apply W2|exact Hiso].
+Qed.
+
+(* ------------------------------------------------------------------ construct and the scope of the parse trees *)
+(* RULE FORMS COVERED by wf_tree (hence by every theorem on trees and objects above): atoms, equivalence steps
+   (EquivalenceRule, EquivalencePathRule, a bare equivalence ReverseRule, a one-factor product), unions (tag 0),
+   products (tag 1).  NOT covered: Complement (2) / Quotient (3) = the reverse of a NON-equivalence rule, whose
+   forward_map raises NotImplementedError, and constructor types of the user: such a class has no well-formed
+   tree (C12_scope), and Bijection.construct (since fix 25bcc90) returns None over a specification holding the
+   reverse of a non-equivalence rule (C12_construct). *)
+Theorem C12_scope : forall s z u r, wf_tree s z u -> find_rule s z = Some r ->
+  r_children r <> [] -> r_iseq r = false -> c_tag (r_ctor r) = 0 \/ c_tag (r_ctor r) = 1.
+Proof. intros. eapply scope_tags; eassumption. Qed.
+
+Theorem C12_nonequiv_reverse_no_tree : forall s c r u,
+  find_rule s c = Some r -> nonequiv_reverse r = true -> r_children r <> [] -> ~ wf_tree s c u.
+Proof. exact nonequiv_reverse_no_tree. Qed.
+
+(* Bijection.construct: a Bijection is returned exactly when the test answers True and NEITHER specification
+   holds the reverse of a non-equivalence rule; then no rule of either specification is one *)
+Theorem C12_construct : forall exact s1 s2 fuel ord,
+  (construct exact s1 s2 fuel = Ok (Some ord) <->
+   exists st, are_isomorphic exact s1 s2 fuel = Ok (true, st) /\ ord = om st /\
+              blocked s1 = false /\ blocked s2 = false) /\
+  (construct exact s1 s2 fuel = Ok (Some ord) ->
+   forall c r, (find_rule s1 c = Some r \/ find_rule s2 c = Some r) -> nonequiv_reverse r = false).
+Proof. intros. split; [apply construct_spec|apply constructed_in_scope]. Qed.
+
 (* ------------------------------------------------------------------ the hypotheses are satisfiable *)
 (* words a*  =  eps | a . a*   in two presentations: the second one lists the children in the
    other order, has the factors of the product exchanged and an equivalence step in front *)
@@ -364,6 +505,126 @@ Proof.
   - intros x [<-|[<-|[<-|[]]]]; simpl; lia.
 Qed.
 
+(* ------------------------------------------------------------------ the object-level hypotheses are satisfiable *)
+(* exA and exB with their OBJECTS, the words a^k (Count/ObjectsExample.v ex_spec = the rules of exA,
+   Count/ParseTreesExample.v exb_spec = the rules of exB, with forward/backward maps, contracts, certificates) *)
+Lemma no_rule_no_tree s z u : find_rule s z = None -> ~ wf_tree s z u.
+Proof. intros H Hw. destruct (wf_find s z u Hw) as [r Hr]. congruence. Qed.
+
+Lemma find_rule_in_none l z : (forall k r, In (k, r) l -> k <> z) -> find_rule_in l z = None.
+Proof.
+  induction l as [|[k r] l IH]; intros H; simpl; [reflexivity|].
+  destruct (Z.eqb_spec k z) as [E|_]; [exfalso; apply (H k r); [left; reflexivity|exact E]|].
+  apply IH. intros k' r' Hin. apply (H k' r'). right. exact Hin.
+Qed.
+
+Example C12_example_describes_A : idescribes ex_size ex_spec ex_atomo exA.
+Proof.
+  split.
+  - intros c. unfold idesc_at. destruct c as [|[|[|[|c]]]]; [simpl|simpl|simpl|simpl|lazy beta iota delta [ex_spec]].
+    + exists (unionR [1; 2]). repeat split; try reflexivity; try discriminate. right. split; reflexivity.
+    + exists (atomR 0). repeat split; reflexivity.
+    + exists (prodR [3; 0]). repeat split; try reflexivity; try discriminate. right. split; reflexivity.
+    + exists (atomR 1). repeat split; reflexivity.
+    + intros u. apply no_rule_no_tree.
+      assert (Hz : 4 <= Z.of_nat (S (S (S (S c))))) by lia. revert Hz. generalize (Z.of_nat (S (S (S (S c))))).
+      intros z Hz. apply find_rule_in_none. intros k r Hin. simpl in Hin.
+      repeat (destruct Hin as [E|Hin]; [inversion E; lia|]). destruct Hin.
+  - intros z r H. apply find_rule_in_rules in H. simpl in H.
+    repeat (destruct H as [E|H]; [inversion E; lia|]). destruct H.
+Qed.
+
+Example C12_example_describes_B : idescribes ex_size exb_spec exb_atomo exB.
+Proof.
+  split.
+  - intros c. unfold idesc_at.
+    destruct c as [|[|[|[|[|[|[|[|[|[|c]]]]]]]]]];
+      [simpl|simpl|simpl|simpl|simpl|simpl|simpl|simpl|simpl|simpl|lazy beta iota delta [exb_spec]].
+    + exists (unionR [2; 1; 9]). repeat split; try reflexivity; try discriminate. right. split; reflexivity.
+    + exists (atomR 0). repeat split; reflexivity.
+    + exists (prodR [0; 3]). repeat split; try reflexivity; try discriminate. right. split; reflexivity.
+    + exists (atomR 1). repeat split; reflexivity.
+    + intros u. apply no_rule_no_tree. reflexivity.
+    + exists (eqR 0). repeat split; try reflexivity; try discriminate. left. split; reflexivity.
+    + intros u. apply no_rule_no_tree. reflexivity.
+    + intros u. apply no_rule_no_tree. reflexivity.
+    + intros u. apply no_rule_no_tree. reflexivity.
+    + intros u Hw. apply wf_nonempty in Hw. discriminate Hw.
+    + intros u. apply no_rule_no_tree.
+      assert (Hz : 10 <= Z.of_nat (S (S (S (S (S (S (S (S (S (S c))))))))))) by lia. revert Hz.
+      generalize (Z.of_nat (S (S (S (S (S (S (S (S (S (S c))))))))))).
+      intros z Hz. apply find_rule_in_none. intros k r Hin. simpl in Hin.
+      repeat (destruct Hin as [E|Hin]; [inversion E; lia|]). destruct Hin.
+  - intros z r H. apply find_rule_in_rules in H. simpl in H.
+    repeat (destruct H as [E|H]; [inversion E; lia|]). destruct H.
+Qed.
+
+(* Bijection.construct returns the bijection of C12_example_search (no reverse rule anywhere) ... *)
+Example C12_example_construct :
+  construct false exA exB 20 = Ok (Some [((0, 0), [1; 0]); ((2, 2), [1; 0])]) /\
+  blocked exA = false /\ blocked exB = false.
+Proof. vm_compute. repeat split; reflexivity. Qed.
+
+(* ... and on OBJECTS its map is a size-preserving bijection a^k <-> a^k between the two root classes with
+   inverse_map as inverse: every hypothesis of C12_constructed_bijection_objects holds *)
+Example C12_example_objects :
+  let ord := [((0, 0), [1; 0]); ((2, 2), [1; 0])] in
+  (forall o, ex_in 0%nat o ->
+     exists o', exb_in 5%nat o' /\ ex_size o' = ex_size o /\
+       exists f0, forall f, (f0 <= f)%nat ->
+         obj_map ex_spec ex_atomo ex_fwd exb_spec exb_atomo exA exB 0%nat ord f o = Some o' /\
+         obj_inverse_map ex_spec ex_atomo exb_spec exb_atomo exb_fwd exA exB 5%nat ord f o' = Some o) /\
+  (forall o', exb_in 5%nat o' ->
+     exists o, ex_in 0%nat o /\ ex_size o = ex_size o' /\
+       exists f0, forall f, (f0 <= f)%nat ->
+         obj_inverse_map ex_spec ex_atomo exb_spec exb_atomo exb_fwd exA exB 5%nat ord f o' = Some o /\
+         obj_map ex_spec ex_atomo ex_fwd exb_spec exb_atomo exA exB 0%nat ord f o = Some o').
+Proof.
+  exact (C12_constructed_bijection_objects nat nat
+           ex_size ex_in ex_par ex_spec ex_atomo ex_fwd ex_size exb_in ex_par exb_spec exb_atomo exb_fwd
+           exA exB 0%nat 5%nat ex_rank exb_rank false 20%nat _
+           ex_node_ok ex_closed ex_rank_reads ex_size_nonneg C12_example_describes_A ltac:(discriminate) eq_refl
+           exb_node_ok exb_closed exb_rank_reads exb_size_nonneg C12_example_describes_B ltac:(discriminate) eq_refl
+           C12_example_wf_A C12_example_wf_B (proj1 C12_example_construct)).
+Qed.
+
+(* the model computes: "aa" is parsed to exT, transported, and unparsed to "aa" in the second specification;
+   and back *)
+Example C12_example_object_maps :
+  let ord := [((0, 0), [1; 0]); ((2, 2), [1; 0])] in
+  emb ex_spec (UNode 0 1 (PNode 2 [SampleModel.Leaf 3; UNode 0 1 (PNode 2 [SampleModel.Leaf 3; UNode 0 0 (SampleModel.Leaf 1)])])) = exT /\
+  ParseTrees.parse ex_spec ex_atomo ex_fwd 30 0%nat 2%nat
+    = Some (UNode 0 1 (PNode 2 [SampleModel.Leaf 3; UNode 0 1 (PNode 2 [SampleModel.Leaf 3; UNode 0 0 (SampleModel.Leaf 1)])])) /\
+  obj_map ex_spec ex_atomo ex_fwd exb_spec exb_atomo exA exB 0%nat ord 30 2%nat = Some 2%nat /\
+  obj_inverse_map ex_spec ex_atomo exb_spec exb_atomo exb_fwd exA exB 5%nat ord 30 2%nat = Some 2%nat /\
+  obj_map ex_spec ex_atomo ex_fwd exb_spec exb_atomo exA exB 0%nat ord 30 0%nat = Some 0%nat.
+Proof. vm_compute. repeat split; reflexivity. Qed.
+
+Example C12_example_trees_coincide :
+  wf_tree exB 5 (emb exb_spec (UNode 5 0 (UNode 0 1 (SampleModel.Leaf 1)))) /\
+  iunparse exb_spec exb_atomo (emb exb_spec (UNode 5 0 (UNode 0 1 (SampleModel.Leaf 1)))) = Some 0%nat.
+Proof.
+  destruct (C12_parse_trees_coincide nat ex_size exb_spec exb_atomo exB C12_example_describes_B) as (A & _ & C).
+  assert (Hw : twf exb_spec exb_atomo (UNode 5 0 (UNode 0 1 (SampleModel.Leaf 1))) 5%nat).
+  { simpl. split; [reflexivity|]. exists [0%nat], [pid], exb_bwdE, 0%nat. split; [reflexivity|]. split; [reflexivity|].
+    split; [reflexivity|]. exists [2%nat; 1%nat; 9%nat], [pid; pid; pid], exb_bwdU, 1%nat.
+    split; [reflexivity|]. split; [reflexivity|]. split; [reflexivity|]. split; [eexists; reflexivity|discriminate]. }
+  split; [exact (A _ 5%nat Hw)|]. rewrite (proj1 (C _ 5%nat Hw)). reflexivity.
+Qed.
+
+(* a specification with the reverse of a non-equivalence rule (constructor Complement, two non-empty children):
+   isomorphic to itself, but construct refuses; and the class has no well-formed tree *)
+Definition revR (ch : list Z) : rule := mkRule true ch false (mkCtor 2 (map (fun _ => []) ch)) false [].
+Definition exR : spec := mkSpec 0 [(0, revR [1; 2]); (1, atomR 0); (2, atomR 1)] [].
+Example C12_example_refuses :
+  (exists st, are_isomorphic true exR exR 20 = Ok (true, st)) /\
+  construct true exR exR 20 = Ok None /\ blocked exR = true /\
+  forall u, ~ wf_tree exR 0 u.
+Proof.
+  split; [eexists; vm_compute; reflexivity|]. split; [vm_compute; reflexivity|]. split; [reflexivity|].
+  intros u. apply (C12_nonequiv_reverse_no_tree exR 0 (revR [1; 2]) u); [reflexivity|reflexivity|discriminate].
+Qed.
+
 Print Assumptions C12_perm_inv.
 Print Assumptions C12_transport_inverse.
 Print Assumptions C12_iso_cert.
@@ -386,3 +647,9 @@ Print Assumptions C12_check_true_bijection.
 Print Assumptions C12_reflexive_atoms.
 Print Assumptions C12_reflexive_never_false.
 Print Assumptions C12_ctor_equiv_refl.
+Print Assumptions C12_parse_trees_coincide.
+Print Assumptions C12_transport_inverse_objects.
+Print Assumptions C12_constructed_bijection_objects.
+Print Assumptions C12_scope.
+Print Assumptions C12_nonequiv_reverse_no_tree.
+Print Assumptions C12_construct.
